@@ -418,6 +418,12 @@ def obligations(tier):
     obs.append(crb_form(name, t))
     obs.append(rne_form(name, t))
   obs += [passive_forward(), integrate_step(), integrate_free(), bounded(tier)]
+  # "total smooth joint force including actuation": the actuation term is C11's contract; the clause that matters for floating-base models (q index != qd index) is proved here too
+  from verif.contracts import C11
+  for qd_id, off in (([0, 2], [1, 1]), ([1, 1], [0, 1])):
+    ob = C11.formula(2, 3, qd_id, off, (), Q)
+    ob.id = ob.id.replace('C11/to_tau', 'C02/actuator.to_tau')
+    obs.append(ob)
 
   def canary():
     # crb form with the mask forgotten (sibling coupling) must be refuted
